@@ -175,3 +175,9 @@ pub fn save_to_icalc(model: &Model, file_name: &str) -> Result<(), XlsxError> {
 
     Ok(())
 }
+
+/// Verification hook (only with `--cfg ironcalc_verif`): reach the private `escape` module.
+#[cfg(ironcalc_verif)]
+pub(crate) fn verif_escape_xml(s: &str) -> String {
+    escape::escape_xml(s).into_owned()
+}
